@@ -6,6 +6,7 @@ import (
 	"reflect"
 	"sort"
 	"strings"
+	"time"
 
 	"google.golang.org/grpc"
 
@@ -192,115 +193,134 @@ func runC15(o *hx.Out, r *hx.Rand, thorough bool) {
 			var okDescs []*grpc.ServiceDesc
 			var okHandlers []interface{}
 			refNames := map[string]bool{}
+			hung := false
 			for _, op := range ops {
-				switch op.kind {
-				case "reg":
-					if c.name == "httpgrpc.Server" && strings.ContainsAny(op.desc.ServiceName, " ") {
-						// ServeMux (go 1.22+) rejects patterns with spaces; keep names mux-safe for this carrier
-						continue
-					}
-					panicked := false
-					func() {
-						defer func() {
-							if recover() != nil {
-								panicked = true
-							}
+				op := op
+				// every registry operation returns: a refused registration must not leave a lock behind
+				finished := make(chan struct{})
+				go func() {
+					defer close(finished)
+					switch op.kind {
+					case "reg":
+						if c.name == "httpgrpc.Server" && strings.ContainsAny(op.desc.ServiceName, " ") {
+							// ServeMux (go 1.22+) rejects patterns with spaces; keep names mux-safe for this carrier
+							return
+						}
+						panicked := false
+						func() {
+							defer func() {
+								if recover() != nil {
+									panicked = true
+								}
+							}()
+							c.reg.RegisterService(op.desc, op.handler)
 						}()
-						c.reg.RegisterService(op.desc, op.handler)
-					}()
-					if op.handler != nil {
-						hByPtr[op.handler] = op.hID
-					}
-					// the reference gets what a standard server accepts: well-typed, name not yet taken
-					// (decided here, not by what the library under test did)
-					dup := refNames[op.desc.ServiceName]
-					if op.impl && !dup {
-						okDescs = append(okDescs, op.desc)
-						okHandlers = append(okHandlers, op.handler)
-						refNames[op.desc.ServiceName] = true
-					}
-					if !panicked && op.impl && dup {
-						o.Violate("a second registration of a service name was accepted",
-							map[string]interface{}{"carrier": c.name, "service": op.desc.ServiceName, "ops_so_far": opDesc}, "no panic", "panic")
-					}
-					if !panicked && !op.impl {
-						o.Violate("a handler that does not implement the service's interface was accepted",
-							map[string]interface{}{"carrier": c.name, "service": op.desc.ServiceName, "handler_type": fmt.Sprintf("%T", op.handler)}, "no panic", "panic")
-					}
-					opTerms = append(opTerms, fmt.Sprintf("Reg %s %d %s", descTerm(op.desc, op.descID), op.hID, hx.B(op.impl)))
-					opDesc = append(opDesc, fmt.Sprintf("register(%q desc#%d, handler#%d %T)", op.desc.ServiceName, op.descID, op.hID, op.handler))
-					if panicked {
-						outTerms = append(outTerms, "OPanic")
-					} else {
-						outTerms = append(outTerms, "ODone")
-					}
-				case "query":
-					if c.query == nil {
-						continue
-					}
-					d, h := c.query(op.name)
-					opTerms = append(opTerms, "Query "+hx.Str(op.name))
-					opDesc = append(opDesc, fmt.Sprintf("query(%q)", op.name))
-					if d == nil {
-						outTerms = append(outTerms, "OQuery None")
-					} else {
-						id, ok := poolID[d]
-						if !ok {
-							id = -1
+						if op.handler != nil {
+							hByPtr[op.handler] = op.hID
 						}
-						hid, ok := hByPtr[h]
-						if !ok {
-							hid = -1
+						// the reference gets what a standard server accepts: well-typed, name not yet taken
+						// (decided here, not by what the library under test did)
+						dup := refNames[op.desc.ServiceName]
+						if op.impl && !dup {
+							okDescs = append(okDescs, op.desc)
+							okHandlers = append(okHandlers, op.handler)
+							refNames[op.desc.ServiceName] = true
 						}
-						outTerms = append(outTerms, fmt.Sprintf("OQuery (Some (%s, %s))", hx.Z(id), hx.Z(hid)))
-					}
-				case "each":
-					if c.each == nil {
-						continue
-					}
-					var rows []string
-					type row struct {
-						n    string
-						d, h int64
-					}
-					var rs []row
-					c.each(func(d *grpc.ServiceDesc, h interface{}) {
-						id, ok := poolID[d]
-						if !ok {
-							id = -1
+						if !panicked && op.impl && dup {
+							o.Violate("a second registration of a service name was accepted",
+								map[string]interface{}{"carrier": c.name, "service": op.desc.ServiceName, "ops_so_far": opDesc}, "no panic", "panic")
 						}
-						hid, ok := hByPtr[h]
-						if !ok {
-							hid = -1
+						if !panicked && !op.impl {
+							o.Violate("a handler that does not implement the service's interface was accepted",
+								map[string]interface{}{"carrier": c.name, "service": op.desc.ServiceName, "handler_type": fmt.Sprintf("%T", op.handler)}, "no panic", "panic")
 						}
-						rs = append(rs, row{d.ServiceName, id, hid})
-					})
-					sort.SliceStable(rs, func(i, j int) bool { return rs[i].n < rs[j].n })
-					for _, x := range rs {
-						rows = append(rows, fmt.Sprintf("(%s, %s, %s)", hx.Str(x.n), hx.Z(x.d), hx.Z(x.h)))
-					}
-					opTerms = append(opTerms, "Each")
-					opDesc = append(opDesc, "for-each")
-					outTerms = append(outTerms, "OEach "+hx.List(rows))
-				case "info":
-					info := c.reg.GetServiceInfo()
-					var ns []string
-					for n := range info {
-						ns = append(ns, n)
-					}
-					sort.Strings(ns)
-					var rows []string
-					for _, n := range ns {
-						var ms []string
-						for _, m := range info[n].Methods {
-							ms = append(ms, minfo(m.Name, m.IsClientStream, m.IsServerStream))
+						opTerms = append(opTerms, fmt.Sprintf("Reg %s %d %s", descTerm(op.desc, op.descID), op.hID, hx.B(op.impl)))
+						opDesc = append(opDesc, fmt.Sprintf("register(%q desc#%d, handler#%d %T)", op.desc.ServiceName, op.descID, op.hID, op.handler))
+						if panicked {
+							outTerms = append(outTerms, "OPanic")
+						} else {
+							outTerms = append(outTerms, "ODone")
 						}
-						rows = append(rows, fmt.Sprintf("(%s, %s, %s)", hx.Str(n), hx.List(ms), hx.Z(metaID(info[n].Metadata))))
+					case "query":
+						if c.query == nil {
+							return
+						}
+						d, h := c.query(op.name)
+						opTerms = append(opTerms, "Query "+hx.Str(op.name))
+						opDesc = append(opDesc, fmt.Sprintf("query(%q)", op.name))
+						if d == nil {
+							outTerms = append(outTerms, "OQuery None")
+						} else {
+							id, ok := poolID[d]
+							if !ok {
+								id = -1
+							}
+							hid, ok := hByPtr[h]
+							if !ok {
+								hid = -1
+							}
+							outTerms = append(outTerms, fmt.Sprintf("OQuery (Some (%s, %s))", hx.Z(id), hx.Z(hid)))
+						}
+					case "each":
+						if c.each == nil {
+							return
+						}
+						var rows []string
+						type row struct {
+							n    string
+							d, h int64
+						}
+						var rs []row
+						c.each(func(d *grpc.ServiceDesc, h interface{}) {
+							id, ok := poolID[d]
+							if !ok {
+								id = -1
+							}
+							hid, ok := hByPtr[h]
+							if !ok {
+								hid = -1
+							}
+							rs = append(rs, row{d.ServiceName, id, hid})
+						})
+						sort.SliceStable(rs, func(i, j int) bool { return rs[i].n < rs[j].n })
+						for _, x := range rs {
+							rows = append(rows, fmt.Sprintf("(%s, %s, %s)", hx.Str(x.n), hx.Z(x.d), hx.Z(x.h)))
+						}
+						opTerms = append(opTerms, "Each")
+						opDesc = append(opDesc, "for-each")
+						outTerms = append(outTerms, "OEach "+hx.List(rows))
+					case "info":
+						info := c.reg.GetServiceInfo()
+						var ns []string
+						for n := range info {
+							ns = append(ns, n)
+						}
+						sort.Strings(ns)
+						var rows []string
+						for _, n := range ns {
+							var ms []string
+							for _, m := range info[n].Methods {
+								ms = append(ms, minfo(m.Name, m.IsClientStream, m.IsServerStream))
+							}
+							rows = append(rows, fmt.Sprintf("(%s, %s, %s)", hx.Str(n), hx.List(ms), hx.Z(metaID(info[n].Metadata))))
+						}
+						opTerms = append(opTerms, "Info")
+						opDesc = append(opDesc, "service-info")
+						outTerms = append(outTerms, "OInfo "+hx.List(rows))
 					}
-					opTerms = append(opTerms, "Info")
-					opDesc = append(opDesc, "service-info")
-					outTerms = append(outTerms, "OInfo "+hx.List(rows))
+				}()
+				select {
+				case <-finished:
+				case <-time.After(3 * time.Second):
+					hung = true
 				}
+				if hung {
+					o.Violate("a registry operation did not return within 3s (after the operations listed)", map[string]interface{}{"carrier": c.name, "ops_so_far": opDesc, "stuck_in": op.kind}, "blocked", "returns")
+					break
+				}
+			}
+			if hung {
+				continue
 			}
 			// reference: a standard gRPC server given the successful registrations
 			ref := grpc.NewServer()
